@@ -19,14 +19,25 @@ def run(rep):
     rep.trusted_base = list(STD_TRUSTED) + ['axiom of sorted(): ascending permutation w.r.t. a total order on labels (differentially tested)']
     for a in STD_ASSUME:
         rep.assume(a)
-    rep.assume('normal forms of the other passes, RRG reachability/idempotence and the pipeline algebra (linearize/reduce) are covered by the bounded stand-in only')
+    rep.assume('RemoveRedundantGates._transform is proved to return exactly the gates reachable from the outputs (plus every input unless removal is requested) with unchanged definitions, on an arbitrary circuit '
+               '(c03_rrg.py; dfs through its contract proved under C20); idempotence follows (the reachable set of the result is the result) by rule R2-style reasoning and is exercised by the bounded stand-in')
+    rep.assume('normal forms of the other passes and the pipeline algebra (linearize/reduce) are covered by the bounded stand-in only')
     it = new_interp()
     pv = Prover(rep, it, 'C18')
     for c in signature_contracts('normal-form'):
         pv.run_contract(c)
+    # RemoveRedundantGates returns exactly the reachable gates (plus the inputs unless their removal is requested): c03_rrg.py
+    from .c03_rrg import Rrg
+    for allow in (False, True):
+        it.loop_specs.clear()
+        it.contracts.clear()
+        pv.run_contract(Rrg(allow))
+    it.loop_specs.clear()
+    it.contracts.clear()
+    it.filter_views = False
     a, b = z3.Bools('a b')
     canary(rep, pv, 'C18/canary/and-is-not-commutative', [], z3.And(a, z3.Not(b)) == z3.And(b, z3.Not(a)))
     refuted = pv.discharge(env.NPROC)
     finish_refuted(rep, pv, refuted)
     run_bounded(rep, 'C18', quick)
-    rep.extra['explanation'] = 'duplicate gates get equal signatures (proved from the real source); everything else about the passes and pipelines: bounded stand-in.'
+    rep.extra['explanation'] = 'RemoveRedundantGates returns exactly the reachable gates (proved on an arbitrary circuit); duplicate gates get equal signatures (proved from the real source); the other passes and pipelines: bounded stand-in.'
